@@ -471,6 +471,7 @@ def _expand_fn(f, helpers, depth, stack, closures=None):
                             ("ref", p0[0].get("f")) in caps:
                         s0["rv"] = {"k": "ref", "bk": "shared", "place": copy.deepcopy(caps[("ref", p0[0]["f"])])}
                 _subst_captures(nb, dl + 1, caps)
+            nb.setdefault("inl", h["path"])
             chains[len(body["blocks"])] = chain | {h["path"]}
             body["blocks"].append(nb)
         # the call block: parameters := arguments, then enter the helper
